@@ -231,8 +231,14 @@ class GroupVelocity:
     def _symmetrize_group_velocity(self, gv, q):
         """Symmetrize obtained group velocities using site symmetries."""
         rotations = []
-        for r in self._symmetry.reciprocal_operations:
+        # Dynamical matrices with non-analytical term correction are not
+        # periodic in reciprocal lattice vectors. The site symmetry has to be
+        # that of q itself, not of q brought back into the first cell.
+        if isinstance(self._dynmat, DynamicalMatrixNAC):
+            q_in_BZ = np.array(q, dtype="double")
+        else:
             q_in_BZ = q - np.rint(q)
+        for r in self._symmetry.reciprocal_operations:
             diff = q_in_BZ - np.dot(r, q_in_BZ)
             if (np.abs(diff) < self._symmetry.tolerance).all():
                 rotations.append(r)
